@@ -81,7 +81,7 @@ Proof.
   assert (Er : SM.size S + 1 + sz = SM.size Tt).
   { destruct Hsz as [Hz|[_ Hz]]; [|exact Hz]. apply Z.gtb_lt in Cs. lia. }
   rewrite Er. pose proof (size_count Tt) as Ec.
-  destruct (ht <=? limit b (SM.size Tt)).
+  case_if.
   - apply rel_ok. cbn [unw_post]. refine (conj _ (conj _ (conj _ (conj _ (conj _ _))))); try (exact eq_refl).
     + right. split; [|reflexivity]. destruct Hsz as [Hz|[Hp Hz]]; [apply Z.gtb_lt in Cs; lia|].
       pose proof (size_count S). lia.
@@ -175,7 +175,7 @@ Proof.
   - (* the nil position: the new node *)
     apply trepr_leaf_inv in R. destruct R as [-> ->]. cbn [go_pnil]. unfold go_hnew, ins_leaf_over, ins_leaf_size, ins_leaf_height.
     apply rel_ok. cbn [ins_post]. refine (conj _ (conj _ (conj _ (conj _ (conj _ _))))); try (exact eq_refl).
-    + destruct (lim <? 0); [right; split; [lia|reflexivity]|left; reflexivity].
+    + case_if; [right; split; [lia|reflexivity]|left; reflexivity].
     + cbn [SM.count]. lia.
     + exists [length h]. split; [|split].
       * apply (trepr_mk (h ++ [G.mk_node key None None]) (length h) (G.mk_node key None None) SM.Leaf SM.Leaf [] []);
@@ -185,7 +185,7 @@ Proof.
       * apply frame_app.
   - tnode R a c Fl Fr Ea Ha Hl Hr Nl Nr Hd. subst root. cbn [go_pnil SM.count] in *.
     rewrite (hget_some h a c Ha). cbn [bind]. unfold ins_lt, ins_gt.
-    destruct (cmp key (G.node_X c) <? 0).
+    case_if.
     { (* ins, added, size, height = t.insert(key, replace, root.left, limit-1); root.left = ins *)
       unfold ins_left_limit, ins_left_height.
       eapply rel_bind; [apply (IHl h (G.node_left c) Fl key replace (lim - 1) fuel Hl); lia|].
@@ -206,7 +206,7 @@ Proof.
         + exists F3. split; [exact R3|]. split.
           * apply (sub_trans h h2 _ _ _ (proj1 F2) S2 S3).
           * apply (frame_trans h h2 h3 _ _ F2 S2 Fr3). }
-    destruct (cmp key (G.node_X c) >? 0).
+    case_if.
     { (* ins, added, size, height = t.insert(key, replace, root.right, limit-1); root.right = ins *)
       unfold ins_right_limit, ins_right_height.
       eapply rel_bind; [apply (IHr h (G.node_right c) Fr key replace (lim - 1) fuel Hr); lia|].
